@@ -54,7 +54,7 @@ func WithContextTags(err error, ctx context.Context) error {
 // representation of the values originally captured by the error.
 func GetContextTags(err error) (res []*logtags.Buffer) {
 	for e := err; e != nil; e = errbase.UnwrapOnce(e) {
-		if w, ok := e.(*withContext); ok {
+		if w, ok := e.(*withContext); ok && w.tags != nil {
 			b := w.tags
 			// Ensure that the buffer does not contain any non-string.
 			if hasNonStringValue(b) {
